@@ -24,11 +24,11 @@ CONFIG = {
     "C18": dict(gen=["Char"], drivers=["Kernel", "Char"]),
     "C19": dict(gen=["Char", "Models"], drivers=["Char", "Enthalpy"]),
     "C17": dict(gen=["Char"], drivers=["Char", "HKPot"]),
-    "C02": dict(gen=["Units"], drivers=["IsoState"]),
+    "C02": dict(gen=["Units", "IsoParams"], drivers=["IsoState"]),
     "C03": dict(gen=["Units"], drivers=["Access"]),
     "C04": dict(gen=[], drivers=["Cache"]),
-    "C05": dict(gen=[], drivers=["Json", "Identity"]),
-    "C06": dict(gen=[], drivers=["Json"]),
+    "C05": dict(gen=["Units", "IsoParams"], drivers=["Json", "Identity", "Construct"]),
+    "C06": dict(gen=["Units", "IsoParams"], drivers=["Json"]),
     "C07": dict(gen=["Formats"], drivers=["TextCodec"]),
     "C08": dict(gen=["Schema"], drivers=["Store", "Schema"]),
     "C09": dict(gen=["Schema"], drivers=["Store", "Pager"]),
